@@ -420,7 +420,7 @@ size_t gp_bytes_trim(
         length -= prefix_length;
 
         if (optional_out_ptr != NULL)
-            *optional_out_ptr = str + prefix_length;
+            *optional_out_ptr = str += prefix_length; // trim right from here
         else
             memmove(str, str + prefix_length, length);
     }
